@@ -22,6 +22,9 @@
                               descriptor.GetGoType() for every descriptor in registration order and
                               Get*DescriptorByGoType for every listed type
      TypeMapCase ...          compiled: per generated Go type, the checks made by the driver
+     WireCase obs wire rt     Marshal / Unmarshal of a REGISTERED descriptor (RegisterAST wrote an Extra map
+                              into every node): only the codec is compared, not descriptor_of
+     AllMethodsCase f s l     ServiceDescriptor.GetAllMethods: Filepath and name of every method, in order
 
    [mismatches_in P cases] returns (case index, code).
    Correspondence (model and implementation disagree):
@@ -78,7 +81,9 @@ Inductive case :=
 | GlobalCase (qs : list (qkind * bytes * bytes * found))
 | ParentCase (fname sname : bytes) (parent : found) (from_all : list (bytes * found))
 | GoTypeCase (fname : bytes) (types : list N) (fwd : list (option N)) (bwd : list (option (gkind * nat)))
-| TypeMapCase (qname : bytes) (own_descriptor by_go_type go_type_back type_descriptor fields_ok : bool).
+| TypeMapCase (qname : bytes) (own_descriptor by_go_type go_type_back type_descriptor fields_ok : bool)
+| WireCase (obs : fdesc) (wire : option bytes) (rt_equal : bool)
+| AllMethodsCase (fname sname : bytes) (all : list (bytes * bytes)).
 
 (* ---------------------------------------------------------------- facts as generic trees *)
 
@@ -397,6 +402,28 @@ Definition case_codes (P : program) (c : case) : list N :=
       end
   | TypeMapCase _ own by_go back tdesc fields_ok =>
       flag (own && by_go && back && tdesc) 14 ++ flag fields_ok 12
+  | WireCase d wire rt =>
+      match wire with
+      | Some raw =>
+          match dec_struct raw with
+          | Some (w, _) =>
+              flag (weq_mod false w (enc_fdesc d)) 1 ++
+              flag (match dec_fdesc w with Some d' => fdesc_equivb d' d | None => false end) 1
+          | None => [1%N]
+          end
+      | None => [10%N]
+      end ++ flag rt 10
+  | AllMethodsCase fname sname all =>
+      match prog_file P fname with
+      | None => [1%N]
+      | Some f =>
+          match get_service reg (descriptor_of f) sname with
+          | None => [1%N]
+          | Some sd =>
+              flag (list_eqb' (fun a b => beqb (fst a) (fst b) && beqb (snd a) (snd b)) all
+                      (map (fun m => (md_filepath m, md_name m)) (get_all_methods reg sd))) 1
+          end
+      end
   end.
 
 Fixpoint run (P : program) (i : N) (cs : list case) : list (N * N) :=
